@@ -58,6 +58,8 @@ struct RunOptions {
 };
 
 RunResult run_plan(const Plan &p, const RunOptions &o);
+// `alsim pristine <plan>`: the child side of C15's new-process comparison (runner.cc, pristine_process)
+int run_pristine(const Plan &p, FILE *out);
 
 // which violation classes a property's check reports (DESIGN 5.4)
 bool class_in_scope(const std::string &prop, const std::string &cls, int mode, bool external, bool after_explicit_offset,
